@@ -8,6 +8,8 @@
 //     lists, remapped source locations with their comment tags);
 //   - judges the implementation alone with the property oracle (oracle.go; optvalues.go for the
 //     links clause at option-value level);
+//   - plants custom options on elements that the filter drops (dropped.go; minimal.go is the oracle
+//     clause "minimal", computed on the result image alone);
 //   - runs the whole bufgen.Generator with several recording plugins that carry different
 //     per-plugin types / exclude_types filters (generate.go, oracle only).
 package main
@@ -440,6 +442,9 @@ func main() {
 		}
 	}
 
-	// 3. whole `buf generate` runs with per-plugin types / exclude_types (generate.go)
+	// 3. custom options on elements that the filter drops (dropped.go)
+	sectionDropped(run, r.Fork(0x64726f70))
+
+	// 4. whole `buf generate` runs with per-plugin types / exclude_types (generate.go)
 	sectionGenerate(run, r.Fork(0x67656e))
 }
